@@ -13,6 +13,7 @@
 //                    short (one byte less), long (one byte more), len<k> (first k bytes),
 //                    tot<n> (true slice, total_size n)
 //   j<i>:<piece>     a ut_metadata reject
+//   q<i>:<p>,<p>..[:split<k>]  ut_metadata REQUESTS from the peer (answered by rejects: J<i>(id,piece)); split<k>: two TCP segments
 //   t                2-minute tick (peers send keep-alives first)
 //   d<i>             the peer closes
 // Output per op: "<op> => <events> # <snapshot>"; events: Q<i>(id=<extid>,piece=<p>) for every
@@ -43,6 +44,7 @@
 #include "torrent/peer/connection_list.h"
 #include "torrent/peer/peer.h"
 #include "torrent/torrent.h"
+#include "torrent/system/poll.h"
 
 using namespace ltv;
 namespace fs = std::filesystem;
@@ -172,6 +174,9 @@ static std::string run_case(Session& S, const std::string& line) {
         if (a != std::string::npos && b != std::string::npos) {
           size_t e = rest.find('e', b + 8);
           ev += "Q" + std::to_string(pk.first) + "(id=" + std::to_string(eid) + ",piece=" + rest.substr(b + 8, e - b - 8) + ") ";
+        } else if (rest.find("8:msg_typei2e") != std::string::npos && b != std::string::npos) {
+          size_t e = rest.find('e', b + 8);   // our reject of the peer's own request
+          ev += "J" + std::to_string(pk.first) + "(id=" + std::to_string(eid) + ",piece=" + rest.substr(b + 8, e - b - 8) + ") ";
         } else if (eid != 0) {
           ev += "E" + std::to_string(pk.first) + "(id=" + std::to_string(eid) + "," + hex(rest.substr(0, 48)) + ") ";
         }
@@ -208,7 +213,9 @@ static std::string run_case(Session& S, const std::string& line) {
       if (!pcb) continue;
       auto* e = pcb->m_extensions;
       o += " C" + std::to_string(pk.first) + "[idm=" + std::to_string(e->is_default() ? 0 : e->id(torrent::ProtocolExtension::UT_METADATA)) +
-           " rs=" + (!e->is_default() && e->is_remote_supported(torrent::ProtocolExtension::UT_METADATA) ? "1" : "0") + "]";
+           " rs=" + (!e->is_default() && e->is_remote_supported(torrent::ProtocolExtension::UT_METADATA) ? "1" : "0") +
+           " rd=" + (torrent::this_thread::poll()->in_read(pcb) ? "1" : "0") + " wr=" + (torrent::this_thread::poll()->in_write(pcb) ? "1" : "0") +
+           " pend=" + (!e->is_default() && e->has_pending_message() ? "1" : "0") + "]";
     }
     return o;
   };
@@ -262,6 +269,33 @@ static std::string run_case(Session& S, const std::string& line) {
           else if (kind.compare(0, 3, "tot") == 0) total = kind.substr(3);
           std::string msg = "d8:msg_typei1e5:piecei" + pc + "e10:total_sizei" + total + "ee" + slice;
           if (peers[idx].w->fd != -1) peers[idx].w->send_bytes(WirePeer::extended(torrent::ProtocolExtension::UT_METADATA, msg));
+          settle_hash();
+        } else if (k == 'q') {
+          // q<i>:<p>,<p>..[:split<k>]  the peer asks US for metadata blocks (we are a magnet download: reject);
+          // split<k>: the bytes arrive in two segments, the first k bytes, then (after the library has read them) the rest
+          if (!peers.count(idx)) return "BADCASE";
+          size_t c1 = arg.find(':');
+          std::string list = arg.substr(0, c1), batch;
+          size_t split = 0;
+          if (c1 != std::string::npos && arg.compare(c1 + 1, 5, "split") == 0) split = std::stoul(arg.substr(c1 + 6));
+          size_t p0 = 0;
+          while (p0 <= list.size()) {
+            size_t q = list.find(',', p0);
+            std::string f = list.substr(p0, q == std::string::npos ? std::string::npos : q - p0);
+            if (!f.empty()) batch += WirePeer::extended(torrent::ProtocolExtension::UT_METADATA, "d8:msg_typei0e5:piecei" + f + "ee");
+            if (q == std::string::npos) break;
+            p0 = q + 1;
+          }
+          if (batch.size() >= 480) return "BADCASE";
+          if (peers[idx].w->fd != -1) {
+            if (split > 0 && split < batch.size()) {
+              peers[idx].w->send_bytes(batch.substr(0, split));
+              pump_all();
+              peers[idx].w->send_bytes(batch.substr(split));
+            } else {
+              peers[idx].w->send_bytes(batch);
+            }
+          }
           settle_hash();
         } else if (k == 'j') {
           if (!peers.count(idx)) return "BADCASE";
@@ -341,13 +375,22 @@ static std::string run_case(Session& S, const std::string& line) {
   return out;
 }
 
+static void on_alarm(int) {
+  static const char msg[] = "HANG\n";
+  ssize_t r = write(1, msg, sizeof msg - 1);
+  (void)r;
+  _exit(0);
+}
+
 int main() {
   std_setup();
+  signal(SIGALRM, on_alarm);
   Session S;
   std::string line;
   while (std::getline(std::cin, line)) {
     if (line.empty()) { std::cout << "\n"; continue; }
     std::string r;
+    alarm(30);
     try {
       r = run_case(S, line);
     } catch (torrent::internal_error& e) {
@@ -357,6 +400,7 @@ int main() {
     } catch (std::exception& e) {
       r = std::string("ERR:exception ") + e.what();
     }
+    alarm(0);
     std::cout << r << "\n";
   }
   return 0;
